@@ -3,7 +3,7 @@
    Proofs/ApiProofs.v (operations) and Proofs/OldCodeProofs.v (the repaired defects). *)
 From Coq Require Import List ZArith NArith Bool Arith.
 From IE Require Import Gen.UndoGen Model.Undo Model.EditModel Model.EditOps Proofs.UndoProofs Proofs.LayerProofs Proofs.EditProofs
-  Proofs.ApiProofs Proofs.OldCodeProofs.
+  Proofs.ApiProofs Proofs.OldCodeProofs Model.DocModel Model.DocOps Proofs.DocProofs Proofs.DocApiProofs Proofs.DocRowColProofs.
 Import ListNotations.
 
 (* ================================================================================================================
@@ -206,3 +206,118 @@ Proof. split; reflexivity. Qed.
 Example ex_flip_changes : exists L', mut_flip_x ex_tab (l_set_char (plain_layer 6 4 false) 0 0 cQ) (0, 0, 6, 4) = Ok L' /\
   get_char L' 5 0 = mkCell 79 7 0 0 0 /\ get_char L' 0 0 = invisible.
 Proof. eexists. split; [vm_compute; reflexivity|]. split; reflexivity. Qed.
+
+
+(* ================================================================================================================
+   (4) Extension: the FULL document of the property (Model/DocModel.v: the layer document above + palette, font table, SAUCE
+       record, ice / palette / font mode; caret font page and selection mask as non-document state) and the remaining undo
+       records.  xeqv a b := eqv on the layer documents /\ same palette /\ same font table (as a finite map) /\ same SAUCE
+       record /\ same three modes.  All framework theorems of (1) apply to it (they are generic in st, uop, eqv). *)
+Theorem xeqv_is_equivalence : (forall a, xeqv a a) /\ (forall a b, xeqv a b -> xeqv b a) /\ (forall a b c, xeqv a b -> xeqv b c -> xeqv a c).
+Proof. exact (conj xeqv_refl (conj xeqv_sym xeqv_trans)). Qed.
+
+(* everything the property observes is determined by the xeqv class *)
+Theorem xeqv_observable : forall a b, xeqv a b ->
+  obs_eq (xb a) (xb b) /\ x_pal a = x_pal b /\ (forall slot, fget slot (x_fonts a) = fget slot (x_fonts b)) /\ x_sauce a = x_sauce b /\
+  x_ice a = x_ice b /\ x_palmode a = x_palmode b /\ x_fontmode a = x_fontmode b.
+Proof. intros a b [H (H1 & H2 & H3 & H4 & H5 & H6)]. split; [apply eqv_obs_eq; exact H|]. repeat split; assumption. Qed.
+
+(* everything proved about the layer document carries over: a sound edit of the layer document, run inside the full editor
+   (its records re-tagged XB), is a sound edit of the full document; an undoable record stays undoable *)
+Theorem lift_sound : forall f, sound_edit op_undo op_redo eqv f ->
+  forall e e', lift_edit f e = Ok e' -> edit_chain xop_undo xop_redo xeqv e e'.
+Proof. exact lift_edit_sound. Qed.
+
+Theorem lift_undoable : forall o x y, Undoable op_undo op_redo eqv o (xb x) (xb y) -> rest_eq x y ->
+  Undoable xop_undo xop_redo xeqv (xfop o) x y.
+Proof. exact Undoable_lift. Qed.
+
+(* per-record soundness of the remaining undo operations (families as in undo_operations_sound; the side conditions inside the
+   families are exactly the complements of the known classes: SetFont needs the recorded old font to be the font of the slot it
+   writes, AddFont / ChangeFontSlot an empty target slot, ResizeBuffer / Crop a SAUCE size in sync with the buffer size) *)
+Theorem undo_operations_sound_x :
+  lclosed xop_undo xop_redo xeqv U_palette R_palette /\ lclosed xop_undo xop_redo xeqv U_sauce R_sauce /\
+  xstable P_setfont /\ xstable P_addfont /\ lclosed xop_undo xop_redo xeqv U_remfont R_remfont /\ xstable P_fontslot /\
+  xstable P_replfont /\ xstable P_icemode /\ xstable P_palmode /\ xstable P_xresize /\ xstable P_xnodoc /\
+  lclosed xop_undo xop_redo xeqv U_paste R_paste /\ lclosed xop_undo xop_redo xeqv U_merge R_merge /\
+  lclosed xop_undo xop_redo xeqv U_crop R_crop /\ xstable P_rotate /\ xstable P_scroll.
+Proof.
+  exact (conj palette_closed (conj sauce_closed (conj setfont_stable (conj addfont_stable (conj remfont_closed (conj fontslot_stable
+        (conj replfont_stable (conj icemode_stable (conj palmode_stable (conj xresize_stable (conj xnodoc_stable (conj paste_closed
+        (conj merge_closed (conj crop_closed (conj rotate_stable scroll_stable))))))))))))))).
+Qed.
+
+(* every modelled operation on the full document — the liftable operations of (2), flip x/y (maps taken from the font table),
+   resize_buffer with and without layers, crop, crop_rect, switch_to_palette, update_sauce_data, switch_to_font_page,
+   set_ansi_font / set_sauce_font, add_ansi_font, replace_font_usage, change_font_slot, remove_font, set_ice_mode, set_palette_mode
+   (for ANY cell conversion / palette plan), merge_layer_down, anchor_layer, stamp_layer_down, paste_clipboard_data,
+   add_selection_to_mask, inverse_selection, enumerate_selections (ANY callback), clear_selection, erase_selection and the nine
+   row / column wrappers reading the selection mask, rotate_layer (ANY character table), scroll_area_up / down over the whole
+   layer width — is a sound edit whenever it is applied OUTSIDE its known class K (a predicate on the state it is applied to;
+   `never` for most) *)
+Theorem x_api_sound : forall f K, xmodelled f K ->
+  forall e e', ~ K (cur e) -> f e = Ok e' -> edit_chain xop_undo xop_redo xeqv e e'.
+Proof. exact xmodelled_sound. Qed.
+
+(* x_undo_redo_history: any history over the modelled operations on the full document, each applied outside its known class
+   and reporting Ok, from a fresh editor; then EVERY interleaving of undo / redo steps: no step fails or panics and the full
+   document is xeqv to the entry of one fixed timeline the walk points at *)
+Theorem x_undo_redo_history : forall fs (e0 en : XE) d, fresh e0 -> xrun fs e0 en ->
+  let n := length (ustk en) in
+  exists tl, length tl = S n /\ rstk en = [] /\
+    xeqv (nth 0 tl d) (cur e0) /\ nth n tl d = cur en /\
+    forall w, exists e', run_ur xop_undo xop_redo w en = Ok e' /\ xeqv (cur e') (nth (walk w n n) tl d).
+Proof. exact x_history_proof. Qed.
+
+(* the known classes are not empty: inside each, the operation reports Ok and its undo does not restore the document
+   (known findings C08-setfont-records-slot0, C08-addfont-overwrites-slot, C08-fontslot-overwrites-slot, C08-resize-rewrites-sauce-size) *)
+Theorem known_setfont_witness : undo_fails_to_restore (x_set_font false (Some 8%N)) known_setfont (wit_doc [(0, 1); (2, 6)]%N None 3 2).
+Proof. exact known_setfont_witness_proof. Qed.
+Theorem known_addfont_witness : undo_fails_to_restore (x_add_ansi_font 2 (Some 8%N)) (known_addfont 2) (wit_doc [(0, 1); (2, 6)]%N None 3 0).
+Proof. exact known_addfont_witness_proof. Qed.
+Theorem known_fontslot_witness : undo_fails_to_restore (x_change_font_slot 2 3) (known_fontslot 2 3) (wit_doc [(0, 1); (2, 6); (3, 7)]%N None 3 0).
+Proof. exact known_fontslot_witness_proof. Qed.
+Theorem known_sauce_size_witness : undo_fails_to_restore (x_resize_buffer 3 1) known_sauce_size (wit_doc [(0, 1)]%N (Some (mkSauce 7 3 5)) 0 0).
+Proof. exact known_sauce_size_witness_proof. Qed.
+
+(* insert / delete row and column (known finding C08-rowcol-raw-lines): undoing such a record from EXACTLY the state its redo
+   produced restores the document, but the record is not invariant under xeqv: from an equivalent state that stores its rows in
+   another shape the undo panics, so these records cannot take part in x_undo_redo_history *)
+Theorem rowcol_exact_roundtrip : forall o a o1 b, is_rowcol o -> xop_redo o a = Ok (o1, b) ->
+  exists o2 a', xop_undo o1 b = Ok (o2, a') /\ xeqv a' a.
+Proof. exact rowcol_exact_roundtrip_proof. Qed.
+
+Theorem rowcol_not_invariant :
+  exists a o1 b t,
+    a = rc_state [[rc_cell]; []; []] 3 /\
+    xop_redo (XDeleteRow 0 2 []) a = Ok (o1, b) /\ xeqv t b /\
+    (exists o2 a', xop_undo o1 b = Ok (o2, a') /\ xeqv a' a) /\
+    xop_undo o1 t = Panic 40.
+Proof. exact rowcol_not_invariant_proof. Qed.
+
+(* Non-vacuity: a history over the full document (palette switch, set_char, paste, merge down, resize with layers, add font,
+   ice mode) satisfies the premises of x_undo_redo_history and changes palette, layers, size, font table and mode *)
+Definition xex_cell : cell := mkCell 66 7 9 0 0.
+Definition xex_hist : list (XE -> res XE) :=
+  [x_switch_to_palette [1; 2; 3]%N; lift_edit (api_set_char 1 0 xex_cell); x_paste_clipboard_data (paste_layer 1 0 2 1 [xex_cell; xex_cell]);
+   x_merge_layer_down 1; x_resize_buffer_layers 3 2; x_add_ansi_font 2 (Some 8%N); x_set_ice_mode 1].
+
+Example xex_hist_runs : exists en, xrun xex_hist (wit_doc [(0, 1)]%N None 3 0) en /\ length (ustk en) = 7%nat /\
+  x_pal (cur en) = [1; 2; 3]%N /\ bw (xb (cur en)) = 3 /\ fget 2 (x_fonts (cur en)) = Some 8%N /\ x_ice (cur en) = 1%N /\
+  length (xlayers (cur en)) = 1%nat.
+Proof.
+  eexists. split.
+  - unfold xex_hist.
+    eapply xrun_cons; [apply xm_switch_to_palette|intros []|vm_compute; reflexivity|].
+    eapply xrun_cons; [apply xm_lift, lf_set_char|intros []|vm_compute; reflexivity|].
+    eapply xrun_cons; [apply xm_paste|intros []|vm_compute; reflexivity|].
+    eapply xrun_cons; [apply xm_merge_layer_down|intros []|vm_compute; reflexivity|].
+    eapply xrun_cons; [apply xm_resize_buffer_layers|intro H; apply H; exact I|vm_compute; reflexivity|].
+    eapply xrun_cons; [apply xm_add_ansi_font|intro H; apply H; reflexivity|vm_compute; reflexivity|].
+    eapply xrun_cons; [apply (xm_set_ice_mode ice_conv)|intros []|vm_compute; reflexivity|].
+    apply xrun_nil.
+  - repeat split; reflexivity.
+Qed.
+
+Example xex_fresh : fresh (wit_doc [(0, 1)]%N None 3 0).
+Proof. split; reflexivity. Qed.
